@@ -439,6 +439,189 @@ Proof.
     cbn [wf_expr e_bits is_cmp]; rewrite ?Wm, ?Wk, ?Bm, ?expr_const_bits, ?Z.eqb_refl; reflexivity.
 Qed.
 
+(* ------------------------------------------------------------------ SIMD&FP operands (V registers, 128 bits) *)
+Lemma okv_vreg n : okv (EScalar (s_vreg n)) 128.
+Proof. split; [|split]; reflexivity. Qed.
+
+(* the B/H/S/D/Q view of a V register *)
+Lemma load_vreg bits n ob : 1 <= bits <= 128 -> loads (OVReg bits n) ob bits.
+Proof.
+  intros Hb. unfold loads. cbn [operand_load]. destruct (Z.eqb_spec bits 128) as [-> | Hne].
+  - eexists. split; [reflexivity|apply okv_vreg].
+  - rewrite mk_trun_ok by (cbn [e_bits s_vreg sbits]; lia). cbn [unwrap]. eexists. split; [reflexivity|].
+    split; [|split; reflexivity]. cbn [wf_expr e_bits s_vreg sbits].
+    replace (1 <=? bits) with true by (symmetry; apply Z.leb_le; lia).
+    replace (bits <? 128) with true by (symmetry; apply Z.ltb_lt; lia). reflexivity.
+Qed.
+(* an element / arrangement view *)
+Lemma load_varr n shift width ix ob : 1 <= width <= 128 -> loads (OVArr n shift width ix) ob width.
+Proof.
+  intros Hw. unfold loads. cbn [operand_load]. rewrite mk_bin_ok by reflexivity. cbn [unwrap bind].
+  assert (Hv : okv (EBin Shr (EScalar (s_vreg n)) (expr_const shift 128)) 128).
+  { split; [|split]; cbn [wf_expr div_free is_div negb e_bits is_cmp s_vreg sbits]; aleaves; reflexivity. }
+  set (v := EBin Shr (EScalar (s_vreg n)) (expr_const shift 128)) in *. clearbody v.
+  destruct (Z.eqb_spec width 128) as [-> | Hne].
+  - eexists. split; [reflexivity|exact Hv].
+  - destruct Hv as (W & D & B). rewrite mk_trun_ok by (rewrite B; lia). cbn [unwrap]. eexists. split; [reflexivity|].
+    split; [|split]; cbn [wf_expr div_free e_bits]; rewrite ?W, ?D, ?B.
+    + replace (1 <=? width) with true by (symmetry; apply Z.leb_le; lia).
+      replace (width <? 128) with true by (symmetry; apply Z.ltb_lt; lia). reflexivity.
+    + reflexivity.
+    + reflexivity.
+Qed.
+
+(* a destination: its storing width w, and any value of width 1..maxw can be stored to it *)
+Definition dest (d : opnd) (w maxw : Z) : Prop :=
+  operand_storing_width d = Ok w /\ 1 <= w <= maxw /\
+  forall v vb, okv v vb -> 1 <= vb <= maxw -> exists op, operand_store d v = Ok op /\ wf_op 64 op = true.
+
+Lemma dest_reg r : dest (OReg r) (reg_bits r) 64.
+Proof. split; [reflexivity|]. split; [destruct (reg_bits_cases r); lia|]. intros v vb Hv Hr. exact (reg_set_ok r v vb Hv Hr). Qed.
+
+(* writing a value of width <= 128 to a full V register *)
+Lemma vset_ok n v vb : okv v vb -> 1 <= vb <= 128 ->
+  exists op, (if 128 <? e_bits v then Panic
+              else if e_bits v =? 128 then Ok (OAssign (s_vreg n) v)
+              else z <- unwrap (mk_ext Zext 128 v) ;; Ok (OAssign (s_vreg n) z)) = Ok op /\ wf_op 64 op = true.
+Proof.
+  intros (W & D & B) Hv. rewrite B. replace (128 <? vb) with false by (symmetry; apply Z.ltb_ge; lia).
+  destruct (Z.eqb_spec vb 128) as [-> | Hne].
+  - eexists. split; [reflexivity|]. cbn [wf_op s_vreg sbits]. rewrite W, B. reflexivity.
+  - rewrite mk_wide_ok by (first [left; reflexivity | lia]). cbn [unwrap bind]. eexists. split; [reflexivity|].
+    cbn [wf_op wf_expr e_bits s_vreg sbits]. rewrite W, B.
+    replace (vb <? 128) with true by (symmetry; apply Z.ltb_lt; lia). reflexivity.
+Qed.
+Lemma dest_vreg bits n : 1 <= bits <= 128 -> dest (OVReg bits n) bits 128.
+Proof. intros Hb. split; [reflexivity|]. split; [exact Hb|]. intros v vb Hv Hr. cbn [operand_store]. exact (vset_ok n v vb Hv Hr). Qed.
+
+(* resize_zext(128, e) for e no wider than 128 bits *)
+Lemma resize128_ok e eb : okv e eb -> 1 <= eb <= 128 ->
+  exists r, (if e_bits e =? 128 then Ok e else if e_bits e <? 128 then unwrap (mk_ext Zext 128 e) else unwrap (mk_ext Trun 128 e)) = Ok r
+            /\ okv r 128.
+Proof.
+  intros (W & D & B) He. rewrite B. destruct (Z.eqb_spec eb 128) as [-> | Hne].
+  - exists e. split; [reflexivity|]. split; [exact W|split; [exact D|exact B]].
+  - replace (eb <? 128) with true by (symmetry; apply Z.ltb_lt; lia).
+    rewrite mk_wide_ok by (first [left; reflexivity | lia]). cbn [unwrap]. eexists. split; [reflexivity|].
+    split; [|split]; cbn [wf_expr div_free e_bits]; rewrite ?W, ?D, ?B; try reflexivity.
+    replace (eb <? 128) with true by (symmetry; apply Z.ltb_lt; lia). reflexivity.
+Qed.
+
+(* an element of a V register: shift + width within the 128 bits *)
+Lemma dest_varr n shift width ix : 0 <= shift -> 1 <= width -> shift + width <= 128 -> dest (OVArr n shift width ix) width 128.
+Proof.
+  intros Hs Hw Hsw. split; [reflexivity|]. split; [lia|]. intros v vb Hv Hvb. cbn [operand_store].
+  assert (Plain : exists op, (r <- (if e_bits v =? 128 then Ok v else if e_bits v <? 128 then unwrap (mk_ext Zext 128 v) else unwrap (mk_ext Trun 128 v)) ;;
+                             (if 128 <? e_bits r then Panic else if e_bits r =? 128 then Ok (OAssign (s_vreg n) r)
+                              else z <- unwrap (mk_ext Zext 128 r) ;; Ok (OAssign (s_vreg n) z))) = Ok op /\ wf_op 64 op = true).
+  { destruct (resize128_ok v vb Hv Hvb) as (r & Er & Hr). rewrite Er. cbn [bind]. apply (vset_ok n r 128 Hr). lia. }
+  destruct ix; cbn [negb]; [|exact Plain].
+  (* the masked old value *)
+  set (vreg := EScalar (s_vreg n)).
+  assert (Hlow : 0 < shift -> okv (EExt Zext 128 (EExt Trun shift vreg)) 128).
+  { intros H0. split; [|split; reflexivity]. cbn [wf_expr e_bits vreg s_vreg sbits].
+    replace (1 <=? shift) with true by (symmetry; apply Z.leb_le; lia).
+    replace (shift <? 128) with true by (symmetry; apply Z.ltb_lt; lia). reflexivity. }
+  assert (Hup : okv (EBin Shl (EBin Shr vreg (expr_const (shift + width) 128)) (expr_const (shift + width) 128)) 128).
+  { split; [|split]; cbn [wf_expr div_free is_div negb e_bits is_cmp vreg s_vreg sbits]; aleaves; reflexivity. }
+  assert (Masked : forall masked, okv masked 128 ->
+            exists op, (repl <- (if e_bits v <=? width then Ok v else unwrap (mk_ext Trun width v)) ;;
+                        r <- (if e_bits repl =? 128 then Ok repl else if e_bits repl <? 128 then unwrap (mk_ext Zext 128 repl) else unwrap (mk_ext Trun 128 repl)) ;;
+                        sh <- unwrap (mk_bin Shl r (expr_const shift 128)) ;;
+                        o <- unwrap (mk_bin Or masked sh) ;;
+                        (if 128 <? e_bits o then Panic else if e_bits o =? 128 then Ok (OAssign (s_vreg n) o)
+                         else z <- unwrap (mk_ext Zext 128 o) ;; Ok (OAssign (s_vreg n) z))) = Ok op /\ wf_op 64 op = true).
+  { intros masked (Wm & Dm & Bm). pose proof Hv as (W & D & B).
+    assert (Hrepl : exists repl rb, (if e_bits v <=? width then Ok v else unwrap (mk_ext Trun width v)) = Ok repl /\ okv repl rb /\ 1 <= rb <= 128).
+    { rewrite B. destruct (Z.leb_spec vb width).
+      - exists v, vb. split; [reflexivity|]. split; [exact Hv|lia].
+      - rewrite mk_trun_ok by (rewrite B; lia). cbn [unwrap]. eexists _, width. split; [reflexivity|]. split; [|lia].
+        split; [|split]; cbn [wf_expr div_free e_bits]; rewrite ?W, ?D, ?B; try reflexivity.
+        replace (1 <=? width) with true by (symmetry; apply Z.leb_le; lia).
+        replace (width <? vb) with true by (symmetry; apply Z.ltb_lt; lia). reflexivity. }
+    destruct Hrepl as (repl & rb & Erepl & Hrepl & Hrb). rewrite Erepl. cbn [bind].
+    destruct (resize128_ok repl rb Hrepl Hrb) as (r & Er & (Wr & Dr & Br)). rewrite Er. cbn [bind].
+    rewrite mk_bin_ok by (rewrite Br, expr_const_bits; reflexivity). cbn [unwrap bind].
+    rewrite mk_bin_ok by (cbn [e_bits is_cmp]; rewrite Bm, Br; reflexivity). cbn [unwrap bind].
+    apply (vset_ok n _ 128); [|lia].
+    split; [|split]; cbn [wf_expr div_free is_div negb e_bits is_cmp]; rewrite ?Wm, ?Dm, ?Bm, ?Wr, ?Dr, ?Br, ?expr_const_bits, ?df_const;
+      try rewrite wf_const by lia; reflexivity. }
+  destruct (Z.ltb_spec 0 shift) as [H0 | H0]; destruct (Z.ltb_spec (shift + width) 128) as [H1 | H1].
+  - rewrite mk_trun_ok by (cbn [e_bits vreg s_vreg sbits]; lia). cbn [unwrap bind].
+    rewrite mk_wide_ok by (first [left; reflexivity | cbn [e_bits]; lia]). cbn [unwrap bind].
+    rewrite mk_bin_ok by reflexivity. cbn [unwrap bind]. rewrite mk_bin_ok by reflexivity. cbn [unwrap bind].
+    rewrite mk_bin_ok by reflexivity. cbn [unwrap bind].
+    apply Masked. destruct (Hlow H0) as (Wl & Dl & Bl). destruct Hup as (Wu & Du & Bu).
+    set (lo := EExt Zext 128 (EExt Trun shift vreg)) in *.
+    set (up := EBin Shl (EBin Shr vreg (expr_const (shift + width) 128)) (expr_const (shift + width) 128)) in *.
+    clearbody lo up.
+    split; [|split]; cbn [wf_expr div_free is_div negb e_bits is_cmp]; rewrite ?Wl, ?Dl, ?Bl, ?Wu, ?Du, ?Bu; reflexivity.
+  - rewrite mk_trun_ok by (cbn [e_bits vreg s_vreg sbits]; lia). cbn [unwrap bind].
+    rewrite mk_wide_ok by (first [left; reflexivity | cbn [e_bits]; lia]). cbn [unwrap bind]. apply Masked. apply Hlow. exact H0.
+  - rewrite mk_bin_ok by reflexivity. cbn [unwrap bind]. rewrite mk_bin_ok by reflexivity. cbn [unwrap bind]. apply Masked. exact Hup.
+  - cbn [bind]. exact Plain.
+Qed.
+
+(* the general builders *)
+Lemma mov_gen d o1 w m vb : dest d w m -> loads o1 w vb -> 1 <= vb <= m ->
+  exists ops, b_mov [d; o1] = Ok (ops, []) /\ ops_ok ops.
+Proof.
+  intros (Ew & Hw & St) L1 Hvb. unfold b_mov. cbn [nth_op nth_error res_of_option bind]. rewrite Ew. cbn [bind]. use L1.
+  destruct (St _ _ H Hvb) as (op & Eop & Wop). rewrite Eop. cbn [bind].
+  eexists. split; [reflexivity|]. apply ops_cons; [exact Wop|apply ops_nil].
+Qed.
+Lemma addsub_gen a d o1 o2 w m : dest d w m -> loads o1 w w -> loads o2 w w ->
+  exists ops, b_addsub a [d; o1; o2] = Ok (ops, []) /\ ops_ok ops.
+Proof.
+  intros (Ew & Hw & St) L1 L2. unfold b_addsub. cbn [nth_op nth_error res_of_option bind]. rewrite Ew. cbn [bind].
+  use L1. use L2. destruct H as (W1 & D1 & B1), H0 as (W2 & D2 & B2).
+  rewrite mk_bin_ok by congruence. cbn [bind unwrap].
+  assert (Hs : okv (EBin (arith_op a) x x0) w) by (destruct a; aokv).
+  destruct (St _ _ Hs Hw) as (op & Eop & Wop). rewrite Eop. cbn [bind].
+  eexists. split; [reflexivity|]. apply ops_cons; [exact Wop|apply ops_nil].
+Qed.
+Lemma ldr_gen d o1 w m : dest d w m -> mem_shape o1 -> mem_w w = true ->
+  exists ops, b_ldr None [d; o1] = Ok (ops, []) /\ ops_ok ops.
+Proof.
+  intros (Ew & Hw & St) Hm Mw. unfold b_ldr. cbn [nth_op nth_error res_of_option bind].
+  destruct (maddr_ok o1 Hm) as (a & se & wb & Ea & Ha & Ese & Hwb). rewrite Ea. cbn [bind fst snd]. rewrite Ew. cbn [bind].
+  destruct (St _ _ (okv_temp0 w ltac:(lia)) Hw) as (op & Eop & Wop). rewrite Eop, Ese. cbn [bind].
+  eexists. split; [reflexivity|]. destruct Ha as (Wa & Da & Ba).
+  apply ops_cons; [cbn [wf_op s_temp0 sbits]; rewrite Wa, Ba, Mw; reflexivity|]. apply ops_cons; [exact Wop|exact Hwb].
+Qed.
+Lemma str_gen d o1 w : operand_storing_width d = Ok w -> loads d w w -> mem_shape o1 -> mem_w w = true ->
+  exists ops, b_str None [d; o1] = Ok (ops, []) /\ ops_ok ops.
+Proof.
+  intros Ew L Hm Mw. unfold b_str. cbn [nth_op nth_error res_of_option bind]. rewrite Ew. cbn [bind]. use L.
+  destruct (maddr_ok o1 Hm) as (a & se & wb & Ea & (Wa & Da & Ba) & Ese & Hwb). rewrite Ea. cbn [bind fst snd]. rewrite Ese. cbn [bind].
+  eexists. split; [reflexivity|]. apply ops_app; [|exact Hwb]. apply ops_cons; [|apply ops_nil].
+  destruct H as (Wv & Dv & Bv). cbn [wf_op]. rewrite Wa, Wv, Ba, Bv, Mw. reflexivity.
+Qed.
+Lemma ldp_gen d d2 o2 w m : dest d w m -> dest d2 w m -> mem_shape o2 -> mem_w w = true ->
+  exists ops, b_ldp [d; d2; o2] = Ok (ops, []) /\ ops_ok ops.
+Proof.
+  intros (Ew & Hw & St) (Ew2 & _ & St2) Hm Mw. unfold b_ldp. cbn [nth_op nth_error res_of_option bind].
+  destruct (maddr_ok o2 Hm) as (a & se & wb & Ea & (Wa & Da & Ba) & Ese & Hwb). rewrite Ea. cbn [bind fst snd]. rewrite Ew. cbn [bind].
+  rewrite mk_bin_ok by (rewrite Ba, expr_const_bits; reflexivity). cbn [unwrap bind].
+  destruct (St _ _ (okv_temp0 w ltac:(lia)) Hw) as (op0 & E0 & W0). rewrite E0. cbn [bind].
+  destruct (St2 _ _ (okv_temp1 w ltac:(lia)) Hw) as (op1 & E1 & W1). rewrite E1, Ese. cbn [bind].
+  eexists. split; [reflexivity|].
+  apply ops_cons; [cbn [wf_op s_temp0 sbits]; rewrite Wa, Ba, Mw; reflexivity|].
+  apply ops_cons; [cbn [wf_op wf_expr e_bits is_cmp s_temp1 sbits]; rewrite Wa, Ba, expr_const_bits, Mw; rewrite wf_const by lia; reflexivity|].
+  apply ops_cons; [exact W0|]. apply ops_cons; [exact W1|exact Hwb].
+Qed.
+Lemma stp_gen d d2 o2 w : operand_storing_width d = Ok w -> loads d w w -> loads d2 w w -> mem_shape o2 -> mem_w w = true ->
+  exists ops, b_stp [d; d2; o2] = Ok (ops, []) /\ ops_ok ops.
+Proof.
+  intros Ew L L2 Hm Mw. unfold b_stp. cbn [nth_op nth_error res_of_option bind]. rewrite Ew. cbn [bind]. use L. use L2.
+  destruct H as (W0 & D0 & B0), H0 as (W1 & D1 & B1).
+  destruct (maddr_ok o2 Hm) as (a & se & wb & Ea & (Wa & Da & Ba) & Ese & Hwb). rewrite Ea. cbn [bind fst snd].
+  rewrite mk_bin_ok by (rewrite Ba, expr_const_bits; reflexivity). cbn [unwrap bind]. rewrite Ese. cbn [bind].
+  eexists; split; [reflexivity|]. apply ops_app; [|exact Hwb].
+  apply ops_cons; [cbn [wf_op]; rewrite Wa, W0, Ba, B0, Mw; reflexivity|].
+  apply ops_cons; [|apply ops_nil]. cbn [wf_op wf_expr e_bits is_cmp]. rewrite Wa, W1, Ba, B1, expr_const_bits, Mw. rewrite wf_const by lia. reflexivity.
+Qed.
+
 (* ------------------------------------------------------------------ one instruction *)
 Definition outcome (r : res built) : Prop :=
   match r with Panic => False | Err _ => True | Ok b => ops_ok (fst b) /\ good_succs (snd b) end.
@@ -475,6 +658,8 @@ Ltac ld_reg := eapply loads_eq; [apply load_reg| rb; try reflexivity | rb; try r
 
 (* the field ranges of an encodable instruction (what Isa/A64Decode.decode_fields establishes for every decoded word) *)
 Definition r32 (x : Z) : Prop := 0 <= x < 32.
+(* element geometry of the AdvSIMD copy group: element size 8 * 2^size bits, index idx within the 128-bit register *)
+Definition elem_ok (size idx : Z) : Prop := 0 <= size < 4 /\ 0 <= idx /\ (idx + 1) * (8 * 2 ^ size) <= 128.
 Definition fields_ok (i : instr) : Prop :=
   match i with
   | ILdStImm size opc _ _ _ _ _ => 0 <= size < 4 /\ 0 <= opc < 4 /\ decode_ldst_opc_ok size opc = true
@@ -482,7 +667,13 @@ Definition fields_ok (i : instr) : Prop :=
       0 <= size < 4 /\ 0 <= opc < 4 /\ decode_ldst_opc_ok size opc = true /\
       (option = 2 \/ option = 3 \/ option = 6 \/ option = 7)
   | ILdStPair opc mode load _ _ _ _ => opc = 0 \/ opc = 2 \/ (opc = 1 /\ load = true)
-  | ILdStOrd size _ _ _ _ => 0 <= size < 4
+  | ILdStOrd size _ _ _ _ | ILdStOrdU size _ _ _ _ => 0 <= size < 4
+  | IVLdStImm scale _ _ _ _ _ _ => 0 <= scale <= 4
+  | IVLdStReg scale _ _ option _ _ _ => 0 <= scale <= 4 /\ (option = 2 \/ option = 3 \/ option = 6 \/ option = 7)
+  | IVLdStPair opc _ _ _ _ _ _ => 0 <= opc <= 2
+  | IVIns size dst src _ _ => elem_ok size dst /\ elem_ok size src
+  | IVInsG size idx _ _ | IVDupS size idx _ _ => elem_ok size idx
+  | IVUmov size idx _ _ => elem_ok size idx
   | IBReg opc _ => opc = 0 \/ opc = 1 \/ opc = 2
   | IBCond cond _ => 0 <= cond < 16
   | _ => True
@@ -656,6 +847,120 @@ Proof.
   rewrite lift_wrap. cbn [operands_of]. destruct nz; (apply out_term; [reflexivity|]); cbn [dispatch]; apply tb_ok.
 Qed.
 
+Lemma lift_ordu addr size load o0 rn rt : fields_ok (ILdStOrdU size load o0 rn rt) -> outcome (lift addr (ILdStOrdU size load o0 rn rt)).
+Proof.
+  intros Hs. pose proof (lift_ord addr size load o0 rn rt Hs) as H. rewrite lift_wrap in *. exact H.
+Qed.
+
+Lemma lift_orrimm addr sf n immr imms rn rd : outcome (lift addr (IOrrImm sf n immr imms rn rd)).
+Proof.
+  rewrite lift_wrap. cbn [operands_of]. destruct ((rn =? 31) && negb (move_wide_preferred sf n imms immr)); [|apply out_unsupported].
+  apply out_plain; [reflexivity|]. cbn [dispatch]. apply ex_plain.
+  eapply mov_ok; [eapply loads_eq; [apply load_imm|reflexivity|reflexivity]|apply dsize_range].
+Qed.
+
+Lemma lift_nop addr : outcome (lift addr INop).
+Proof. rewrite lift_wrap. cbn [operands_of]. apply out_plain; [reflexivity|]. cbn [dispatch plain_ok fst snd]. split; reflexivity. Qed.
+
+(* widths of the SIMD&FP views *)
+Lemma vwidth scale : 0 <= scale <= 4 -> 1 <= 8 * 2 ^ scale <= 128 /\ mem_w (8 * 2 ^ scale) = true.
+Proof.
+  intros H. assert (Hc : scale = 0 \/ scale = 1 \/ scale = 2 \/ scale = 3 \/ scale = 4) by lia.
+  destruct Hc as [-> | [-> | [-> | [-> | ->]]]]; split; try reflexivity; cbn; lia.
+Qed.
+Lemma mem_imm_shape (mode : wbmode) rn off :
+  mem_shape (match mode with WOffset => OMemOffset (xreg_sp true rn) off | WPre => OMemPreIdx (xreg_sp true rn) off
+                        | WPost => OMemPostIdxImm (xreg_sp true rn) off end).
+Proof. destruct mode; constructor; rb; reflexivity. Qed.
+Lemma mem_pair_shape (mode : pmode) rn off :
+  mem_shape (match mode with PNoAlloc | POffset => OMemOffset (xreg_sp true rn) off | PPre => OMemPreIdx (xreg_sp true rn) off
+                        | PPost => OMemPostIdxImm (xreg_sp true rn) off end).
+Proof. destruct mode; constructor; rb; reflexivity. Qed.
+Lemma mem_ext_shape option (sbit : bool) amount rn rm : (option = 2 \/ option = 3 \/ option = 6 \/ option = 7) ->
+  mem_shape (OMemExt (xreg_sp true rn) (xreg_zr (ext_is_x (decode_ext option)) rm)
+               (match decode_ext option with
+                | XUXTX => if sbit then Some (BLSL amount) else None
+                | _ => Some (bext_of (decode_ext option) amount)
+                end)).
+Proof.
+  intros Hopt. constructor; [rb; reflexivity|].
+  destruct Hopt as [-> | [-> | [-> | ->]]]; cbn [decode_ext Z.eqb Pos.eqb ext_is_x bext_of]; try destruct sbit; rb; cbn [dsize shift_pre sh_len];
+    try reflexivity; lia.
+Qed.
+
+Lemma vldst_any addr (load : bool) bits rt o1 : 1 <= bits <= 128 -> mem_w bits = true -> mem_shape o1 ->
+  outcome (wrap addr (if load then MLdr else MStr) [OVReg bits rt; o1]).
+Proof.
+  intros Hb Mw Hm. destruct load; (apply out_plain; [reflexivity|]); cbn [dispatch]; apply ex_plain.
+  - eapply ldr_gen; [apply dest_vreg; exact Hb|exact Hm|exact Mw].
+  - eapply str_gen; [reflexivity|apply load_vreg; exact Hb|exact Hm|exact Mw].
+Qed.
+
+Lemma lift_vldst_imm addr scale load mode scaled imm rn rt :
+  fields_ok (IVLdStImm scale load mode scaled imm rn rt) -> outcome (lift addr (IVLdStImm scale load mode scaled imm rn rt)).
+Proof.
+  intros Hf. rewrite lift_wrap. cbn [operands_of]. cbv zeta. destruct (vwidth scale Hf) as (Hb & Mw).
+  apply vldst_any; [exact Hb|exact Mw|apply mem_imm_shape].
+Qed.
+Lemma lift_vldst_reg addr scale load rm option sbit rn rt :
+  fields_ok (IVLdStReg scale load rm option sbit rn rt) -> outcome (lift addr (IVLdStReg scale load rm option sbit rn rt)).
+Proof.
+  intros (Hs & Hopt). rewrite lift_wrap. cbn [operands_of]. cbv zeta. destruct (vwidth scale Hs) as (Hb & Mw).
+  apply vldst_any; [exact Hb|exact Mw|apply mem_ext_shape; exact Hopt].
+Qed.
+Lemma lift_vpair addr opc mode load imm7 rt2 rn rt :
+  fields_ok (IVLdStPair opc mode load imm7 rt2 rn rt) -> outcome (lift addr (IVLdStPair opc mode load imm7 rt2 rn rt)).
+Proof.
+  intros Hf. rewrite lift_wrap. cbn [operands_of fields_ok] in *. cbv zeta.
+  destruct (vwidth (2 + opc) ltac:(lia)) as (Hb & Mw).
+  destruct load; (apply out_plain; [reflexivity|]); cbn [dispatch]; apply ex_plain.
+  - eapply ldp_gen; [apply dest_vreg; exact Hb|apply dest_vreg; exact Hb|apply mem_pair_shape|exact Mw].
+  - eapply stp_gen; [reflexivity|apply load_vreg; exact Hb|apply load_vreg; exact Hb|apply mem_pair_shape|exact Mw].
+Qed.
+
+Lemma elem_geom size idx : elem_ok size idx ->
+  0 <= idx * (8 * 2 ^ size) /\ 1 <= 8 * 2 ^ size <= 64 /\ idx * (8 * 2 ^ size) + 8 * 2 ^ size <= 128.
+Proof.
+  intros (Hs & Hi & Hb). assert (Hc : size = 0 \/ size = 1 \/ size = 2 \/ size = 3) by lia.
+  destruct Hc as [-> | [-> | [-> | ->]]]; cbn in *; lia.
+Qed.
+
+Lemma lift_vins addr size dst src rn rd : fields_ok (IVIns size dst src rn rd) -> outcome (lift addr (IVIns size dst src rn rd)).
+Proof.
+  intros (Hd & Hs). rewrite lift_wrap. cbn [operands_of]. cbv zeta.
+  destruct (elem_geom _ _ Hd) as (D0 & Dw & Db). destruct (elem_geom _ _ Hs) as (S0 & Sw & Sb).
+  apply out_plain; [reflexivity|]. cbn [dispatch]. apply ex_plain.
+  eapply mov_gen; [apply dest_varr; lia|apply load_varr; lia|lia].
+Qed.
+Lemma lift_vinsg addr size idx rn rd : fields_ok (IVInsG size idx rn rd) -> outcome (lift addr (IVInsG size idx rn rd)).
+Proof.
+  intros Hd. rewrite lift_wrap. cbn [operands_of]. cbv zeta. destruct (elem_geom _ _ Hd) as (D0 & Dw & Db).
+  apply out_plain; [reflexivity|]. cbn [dispatch]. apply ex_plain.
+  eapply mov_gen; [apply dest_varr; lia|apply load_reg|rb; pose proof (dsize_range (size =? 3)); lia].
+Qed.
+Lemma lift_vumov addr size idx rn rd : fields_ok (IVUmov size idx rn rd) -> outcome (lift addr (IVUmov size idx rn rd)).
+Proof.
+  intros Hd. rewrite lift_wrap. cbn [operands_of]. cbv zeta. destruct (elem_geom _ _ Hd) as (D0 & Dw & Db).
+  apply out_plain; [reflexivity|]. cbn [dispatch]. apply ex_plain.
+  eapply mov_gen; [apply dest_reg|apply load_varr; lia|lia].
+Qed.
+Lemma lift_vdups addr size idx rn rd : fields_ok (IVDupS size idx rn rd) -> outcome (lift addr (IVDupS size idx rn rd)).
+Proof.
+  intros Hd. rewrite lift_wrap. cbn [operands_of]. cbv zeta. destruct (elem_geom _ _ Hd) as (D0 & Dw & Db).
+  apply out_plain; [reflexivity|]. cbn [dispatch]. apply ex_plain.
+  eapply mov_gen; [apply dest_vreg; lia|apply load_varr; lia|lia].
+Qed.
+Lemma lift_vmovv addr q rn rd : outcome (lift addr (IVMovV q rn rd)).
+Proof.
+  rewrite lift_wrap. cbn [operands_of]. cbv zeta. apply out_plain; [reflexivity|]. cbn [dispatch]. apply ex_plain.
+  destruct q; (eapply mov_gen; [apply dest_varr; lia|apply load_varr; lia|lia]).
+Qed.
+Lemma lift_vaddsub addr sub rm rn rd : outcome (lift addr (IVAddSubD sub rm rn rd)).
+Proof.
+  rewrite lift_wrap. cbn [operands_of]. destruct sub; (apply out_plain; [reflexivity|]); cbn [dispatch]; apply ex_plain;
+    (eapply addsub_gen; [apply dest_vreg; lia|apply load_vreg; lia|apply load_vreg; lia]).
+Qed.
+
 (* every mirrored A64 instruction class, every field value in its encodable range: no panic; an Ok result has
    well-formed operations and good successors *)
 Theorem lift_outcome : forall addr i, fields_ok i -> outcome (lift addr i).
@@ -671,6 +976,18 @@ Proof.
   - apply lift_ldlit.
   - apply lift_pair; exact Hf.
   - apply lift_ord; exact Hf.
+  - apply lift_ordu; exact Hf.
+  - apply lift_orrimm.
+  - apply lift_nop.
+  - apply lift_vldst_imm; exact Hf.
+  - apply lift_vldst_reg; exact Hf.
+  - apply lift_vpair; exact Hf.
+  - apply lift_vins; exact Hf.
+  - apply lift_vinsg; exact Hf.
+  - apply lift_vumov; exact Hf.
+  - apply lift_vdups; exact Hf.
+  - apply lift_vmovv.
+  - apply lift_vaddsub.
   - apply lift_bimm.
   - apply lift_breg; exact Hf.
   - apply lift_bcond; exact Hf.
@@ -719,9 +1036,9 @@ Qed.
 
 Ltac blh h l := match goal with w : Z |- _ => pose proof (bits_lt w h l _ ltac:(lia) eq_refl) end.
 
-Theorem decode_fields : forall w i, decode w = Some i -> fields_ok i.
+Lemma decode_int_fields : forall w i, decode_int w = Some i -> fields_ok i.
 Proof.
-  intros w i. unfold decode. cbv zeta. intros H.
+  intros w i. unfold decode_int. cbv zeta. intros H.
   repeat match type of H with
          | context [if ?c then _ else _] => let E := fresh "E" in destruct c eqn:E
          end; try discriminate H; inversion H; subst i; clear H; cbn [fields_ok]; try exact I;
@@ -742,6 +1059,49 @@ Proof.
             first [lia | right; right; split; [lia|reflexivity] | (left; lia) | (right; left; lia)]).
   all: try (eapply proj1; apply bits_lt; [lia|reflexivity]).
   all: try (eapply proj2; apply bits_lt; [lia|reflexivity]).
+  all: try reflexivity.
+Qed.
+
+(* LowestSetBit(imm5) and the element indices derived from imm5 / imm4 stay inside the 128-bit register *)
+Lemma imm5_size_ok imm5 size : 0 <= imm5 < 32 -> imm5_size imm5 = Some size ->
+  elem_ok size (imm5 / 2 ^ (size + 1)) /\ forall imm4, 0 <= imm4 < 16 -> elem_ok size (imm4 / 2 ^ size).
+Proof.
+  intros H5 E. unfold imm5_size in E.
+  repeat match type of E with context [if ?c then _ else _] => destruct c end; try discriminate E; injection E as <-;
+    unfold elem_ok; cbn [Z.add Z.pow Z.pow_pos Pos.iter Z.mul Pos.mul Pos.add Pos.succ];
+    (split; [|intros imm4 H4]);
+    repeat match goal with |- context [?a / ?b] => pose proof (Z.div_mod a b ltac:(lia)); pose proof (Z.mod_pos_bound a b ltac:(lia)); generalize dependent (a / b); intros end;
+    lia.
+Qed.
+
+Lemma decode_simd_fields : forall w i, decode_simd w = Some i -> fields_ok i.
+Proof.
+  intros w i. unfold decode_simd. cbv zeta. intros H.
+  assert (B5 : 0 <= bits w 20 16 < 32) by (apply bits_lt; [lia|reflexivity]).
+  assert (B4 : 0 <= bits w 14 11 < 16) by (apply bits_lt; [lia|reflexivity]).
+  assert (B30 : 0 <= bits w 31 30 < 4) by (apply bits_lt; [lia|reflexivity]).
+  repeat match type of H with
+         | context [if ?c then _ else _] => let E := fresh "E" in destruct c eqn:E
+         | context [match imm5_size ?x with _ => _ end] => let E := fresh "E" in destruct (imm5_size x) eqn:E
+         end; try discriminate H; inversion H; subst i; clear H; cbn [fields_ok]; try exact I;
+    try match goal with E : imm5_size _ = Some _ |- _ => destruct (imm5_size_ok _ _ B5 E) as (Hi5 & Hi4) end;
+    try (split; [exact Hi5|apply Hi4; exact B4]); try exact Hi5;
+    repeat match goal with
+           | H : (_ =? _) = false |- _ => apply Z.eqb_neq in H
+           | H : (_ =? _) = true |- _ => apply Z.eqb_eq in H
+           | H : (_ <=? _) = true |- _ => apply Z.leb_le in H
+           | H : (_ <=? _) = false |- _ => apply Z.leb_gt in H
+           | H : (_ && _) = true |- _ => apply andb_prop in H; destruct H
+           end;
+    try lia;
+    try (split; [lia|]; match goal with H : bitb _ 14 = true |- _ => apply option_bit1; exact H end).
+Qed.
+
+Theorem decode_fields : forall w i, decode w = Some i -> fields_ok i.
+Proof.
+  intros w i. unfold decode. destruct (decode_simd w) as [j|] eqn:E.
+  - intros H. injection H as <-. apply decode_simd_fields with (w := w). exact E.
+  - apply decode_int_fields.
 Qed.
 
 (* hence, for every word: the mirror of a decoded instruction never panics and its blocks are good *)
